@@ -225,6 +225,7 @@ fn run_case(c: &Case) -> CaseOut {
                     "c08" => oracles::c08_canonical(&c.input, &c.cfg, c.well_formed),
                     "c09" => oracles::c09_line_endings(&c.input, &c.cfg),
                     "c10" if c.well_formed => oracles::c10_indentation(&c.input, &c.cfg),
+                    "c11" if c.well_formed && c.family == "c11mini" => oracles::c11_full_sweep(&c.input, &c.cfg),
                     "c11" if c.well_formed && c.family == "boundary" => {
                         let mut v = oracles::c11_wrap_column(&c.input, &c.cfg, c.cfg.wrap_column, c.w2);
                         v.extend(oracles::c11_sweep(&c.input, &c.cfg));
@@ -274,7 +275,7 @@ fn run_case(c: &Case) -> CaseOut {
                 }
             }
             let in_line = format!(
-                "fmt\t{}\t{}\t{}\t{}\t{}\t{}\t{}\t{}\t{}\t{}\t{}",
+                "fmt\t{}\t{}\t{}\t{}\t{}\t{}\t{}\t{}\t{}\t{}\t{}\t{}",
                 c.cfg.to_proto(),
                 proto::hex(c.input.as_bytes()),
                 proto::list(&snap.kinds),
@@ -286,15 +287,18 @@ fn run_case(c: &Case) -> CaseOut {
                 if c.well_formed { "1" } else { "0" },
                 proto::list(&snap.parser_kinds),
                 proto::lines(&snap.parser_lines),
+                proto::list(&snap.solutions.iter().map(|(p, l, s)| format!("{}:{}:{}", p, l, s)).collect::<Vec<_>>()),
             );
             // kinds changed by the consolidators (index:kind), relative to the parser's kinds
             let ck: Vec<String> = snap.parser_kinds.iter().zip(snap.kinds.iter()).enumerate().filter(|(_, (a, b))| a != b).map(|(i, (_, b))| format!("{}:{}", i, b)).collect();
             bump(&mut stats, "kinds_changed_by_consolidators", ck.len());
             bump(&mut stats, "lines_changed_by_consolidators", snap.parser_lines.iter().zip(snap.lines.iter()).filter(|(a, b)| a != b).count());
             let exp_line = format!(
-                "ck={}\tcl={}\tmarks={}\tlv={}\tpre={}\tprec={}\tkr=1\twc=1\tnd=1\trx=1\tcur={}\tout={}",
+                "ck={}\tcl={}\twp={}\twcn={}\tsx=1\tmarks={}\tlv={}\tpre={}\tprec={}\tkr=1\twc=1\tnd=1\trx=1\tcur={}\tout={}",
                 proto::list(&ck),
                 proto::lines(&snap.lines),
+                proto::fmts(&snap.fmt_post),
+                proto::changed(&snap.contents_pre, &snap.contents_post),
                 proto::list(&snap.marks),
                 proto::lines(&snap.lines_voided),
                 proto::fmts(&snap.fmt_pre),
@@ -720,6 +724,11 @@ fn gen_inputs(family: &str, rng: &mut Rng, n: usize, seeds: &[String]) -> Vec<St
                 v.push(directive_soup(rng));
             }
         }
+        "c11mini" => {
+            for _ in 0..n {
+                v.push(c11_mini(rng));
+            }
+        }
         "pairs" => {
             for _ in 0..n {
                 v.push(token_pairs(rng));
@@ -1007,7 +1016,7 @@ fn cmd_emit(a: &Args) {
             if fam == "boundary" {
                 cfg.wrap_column = boundary_width(&input, &cfg, &mut r);
             }
-            let well_formed = matches!(fam.as_str(), "grammar" | "layout" | "seeds" | "seeds_sample" | "regions" | "mlsfam" | "boundary")
+            let well_formed = matches!(fam.as_str(), "grammar" | "layout" | "seeds" | "seeds_sample" | "regions" | "mlsfam" | "boundary" | "c11mini")
                 && !(fam.starts_with("seeds") && oracles::has_unterminated_token(&input));
             let mut cursors = vec![];
             if oracle_list.iter().any(|o| o == "c15") {
